@@ -35,6 +35,14 @@ type descriptor struct {
 	// completing normally, before the activation in which the events arrive:
 	// what was armed for an earlier activation must not react a second time
 	Loop int `json:"loop,omitempty"`
+	// TwoTokens (unrestricted campaign only): a parallel fork sends two tokens
+	// into the host at once. The engine keeps one set of boundary listeners and
+	// one gate per host NODE (finding C10-F3's root), so what it does here is
+	// compared with the model of the known deviations.
+	TwoTokens bool `json:"twoTokens,omitempty"`
+	// IDStyle: how the ids look (gen.B.Style) - e.g. the id of another task is
+	// a proper suffix of the host's id
+	IDStyle int `json:"idStyle,omitempty"`
 }
 
 type built struct {
@@ -44,7 +52,7 @@ type built struct {
 }
 
 func build(d descriptor) *built {
-	b := gen.NewB()
+	b := gen.NewBStyle(d.IDStyle)
 	bt := &built{g: b.G}
 	st := b.Add(gen.KStart)
 	cur := st
@@ -83,6 +91,12 @@ func build(d descriptor) *built {
 		out := b.Connect(x, en)
 		x.Default = out.ID
 	} else {
+		if d.TwoTokens {
+			fork := b.Add(gen.KPar)
+			b.Connect(cur, fork)
+			b.Connect(fork, host)
+			cur = fork
+		}
 		b.Connect(cur, host)
 		b.Connect(host, n)
 		b.Connect(n, en)
@@ -111,7 +125,8 @@ func evOf(d gen.EventDef) *model.Ev { return &model.Ev{Kind: d.Kind, Ref: d.Ref,
 func draw(rt *rapid.T) descriptor {
 	exF1, exF2, exF3 := rec.Exclude("C10-F1"), rec.Exclude("C10-F2"), rec.Exclude("C10-F3")
 	kinds := append([]string{"sub"}, gen.TaskKinds...)
-	d := descriptor{HostKind: rapid.SampledFrom(kinds).Draw(rt, "host"), PreTask: rapid.Bool().Draw(rt, "pre"), Perturb: uint64(rapid.IntRange(0, 200).Draw(rt, "perturb"))}
+	d := descriptor{HostKind: rapid.SampledFrom(kinds).Draw(rt, "host"), PreTask: rapid.Bool().Draw(rt, "pre"), Perturb: uint64(rapid.IntRange(0, 200).Draw(rt, "perturb")),
+		IDStyle: rapid.SampledFrom([]int{0, 0, 1, 1, 2, 3}).Draw(rt, "idStyle")}
 	nb := rapid.IntRange(1, 2).Draw(rt, "bounds")
 	for i := 0; i < nb; i++ {
 		def := gen.EventDef{Kind: "signal", Ref: fmt.Sprintf("s%d", i)}
@@ -130,7 +145,9 @@ func draw(rt *rapid.T) descriptor {
 		}
 		d.Script = append(d.Script, drive.Stim{Kind: "answer"})
 	}
-	if d.HostKind != "sub" && rapid.IntRange(0, 3).Draw(rt, "loop") == 0 {
+	if d.HostKind != "sub" && !exF1 && !exF3 && rapid.IntRange(0, 3).Draw(rt, "twoTokens") == 0 {
+		d.TwoTokens = true
+	} else if d.HostKind != "sub" && rapid.IntRange(0, 3).Draw(rt, "loop") == 0 {
 		// earlier activations of the host that complete normally, without events
 		// (a sub-process entered repeatedly is finding C12-F3's pattern)
 		d.Loop = rapid.IntRange(1, 2).Draw(rt, "loops")
@@ -264,8 +281,11 @@ func knownMatch(d descriptor, out *drive.ScriptOutcome, bt *built) string {
 			}
 		}
 	}
-	anyInterrupt, anyTwice, anyNever := false, false, false
+	anyInterrupt, anyTwice, anyNever, anyMatch := false, false, false, false
 	for i, b := range d.Bounds {
+		if matches[i] > 0 {
+			anyMatch = true
+		}
 		if b.Interrupt && matches[i] > 0 {
 			anyInterrupt = true
 		}
@@ -286,7 +306,7 @@ func knownMatch(d descriptor, out *drive.ScriptOutcome, bt *built) string {
 		if anyInterrupt && rec.Known("C10-F2") {
 			return "C10-F2"
 		}
-		if anyTwice && rec.Known("C10-F3") {
+		if (anyTwice || (d.TwoTokens && anyMatch)) && rec.Known("C10-F3") {
 			return "C10-F3"
 		}
 	}
@@ -312,6 +332,9 @@ func classify(d descriptor, out *drive.ScriptOutcome) (cls []string, nt bool) {
 	cls = append(cls, "host="+d.HostKind, fmt.Sprintf("bounds=%d", len(d.Bounds)))
 	if d.Loop > 0 {
 		cls = append(cls, "hostActivatedBefore")
+	}
+	if d.TwoTokens {
+		cls = append(cls, "twoTokensInHost")
 	}
 	for _, b := range d.Bounds {
 		if b.Interrupt {
